@@ -66,6 +66,7 @@ type abortPanic struct{}
 
 // Ctx is handed to an engine for one simulated run.
 type Ctx struct {
+	T        *testing.T // the enclosing test (engines that need testing/synctest bubbles)
 	rt       *rapid.T // nil when replaying
 	Property string
 	Tier     string
@@ -393,7 +394,7 @@ func envInt(name string, def int64) int64 {
 }
 
 func newCtx(rt *rapid.T, spec Spec, tier string, tr *Trace, st *Stats) *Ctx {
-	return &Ctx{rt: rt, Property: spec.Property, Tier: tier, Trace: tr, st: st,
+	return &Ctx{T: curT, rt: rt, Property: spec.Property, Tier: tier, Trace: tr, st: st,
 		counters: map[string]int64{}, probes: map[string]int64{}, states: map[uint64]struct{}{}}
 }
 
@@ -447,10 +448,12 @@ var knobOverride = func() map[string]int64 {
 	return m
 }()
 
+var curT *testing.T
 var target *Violation // violation class being minimised (first unknown one seen in this process)
 
 // Main runs spec either as a replay (VERIF_REPLAY) or as this worker's share of a seeded search.
 func Main(t *testing.T, spec Spec) {
+	curT = t
 	tier := os.Getenv("VERIF_TIER")
 	if tier == "" {
 		tier = "quick"
